@@ -16,8 +16,8 @@ ARCH = {
                 handler=r'^randomx::JitCompilerX86::h_(\w+)$'),
     'a64': dict(config='K2', cls='randomx::JitCompilerA64', unit='src/jit_compiler_a64.cpp', table='randomx::JitCompilerA64::engine',
                 handler=r'^randomx::JitCompilerA64::h_(\w+)$'),
-    'rv64': dict(config='K3', cls='randomx::JitCompilerRV64', unit='src/jit_compiler_rv64.cpp', table='randomx::opcodeMap1',
-                 handler=r'^randomx::h_(\w+)$'),
+    'rv64': dict(config='K3', cls='randomx::JitCompilerRV64', unit='src/jit_compiler_rv64.cpp', table='(anonymous namespace)::opcodeMap1',
+                 handler=r'^(?:randomx::|\(anonymous namespace\)::)*h_(\w+)$'),
 }
 
 _H = {}
